@@ -46,7 +46,7 @@ Section Item.
       destruct Ht as [->|(l2 & more & -> & Hc & Hm)]; [reflexivity|].
       cbn [item_loop]. unfold NL. rewrite parse_continuation_blank. cbn [str_eqb Z.eqb Pos.eqb item_loop andb]. rewrite Hc.
       replace (S taken - 1)%nat with taken by lia.
-      destruct (any_interrupt types BK_List (l2 :: more)); [cbn [skipn]; reflexivity|].
+      destruct (item_interrupt types (l2 :: more)); [cbn [skipn]; reflexivity|].
       rewrite Hm. cbn [skipn]. reflexivity.
     - inversion Hok as [|? ? Hl Hls]; subst. cbn [map app item_loop].
       destruct l as [|k c body]; cbn [embed_line].
